@@ -26,6 +26,7 @@ import XotModel.Driver.Fanyorder
 import XotModel.Driver.Fidx
 import XotModel.Driver.Fcreation
 import XotModel.Driver.Bytes
+import XotModel.Driver.ValidDoc
 
 open XotModel.Driver
 
@@ -37,6 +38,7 @@ def dispatch (st : DState) (line : String) : DState × String :=
   | "cmp" :: rest => (st, (handleCmp st rest).getD "bad-request")
   | "idmap" :: rest => (handleIdMap st rest).getD (st, "bad-request")
   | "axes" :: rest => (st, (handleAxes rest).getD "bad-request")
+  | "validate" :: rest => (st, (handleValidate rest).getD "bad-request")
   | "ser" :: rest => (st, (handleSer st rest).getD "bad-request")
   | "scope" :: rest => (st, (handleScope st rest).getD "bad-request")
   | "html" :: rest => (st, (handleHtml st rest).getD "bad-request")
